@@ -1887,6 +1887,12 @@ class SolidityStorage(Storage):
                 base = simplify(sha3_input.arg(1))
                 if offset.size() != 256 and base.size() == 256:
                     return cls.decode(ex, base) + (offset, Z3_ZERO)
+            elif is_bv_value(sha3_input) and sha3_input.size() > 256:
+                # the same, for a key that is concrete (the hashed data is a single numeral)
+                size = sha3_input.size()
+                offset = simplify(Extract(size - 1, 256, sha3_input))
+                base = simplify(Extract(255, 0, sha3_input))
+                return cls.decode(ex, base) + (offset, Z3_ZERO)
         elif loc.decl().name() == "bvadd":
             #   # when len(args) == 2
             #   arg0 = cls.decode(loc.arg(0))
@@ -2018,6 +2024,12 @@ class GenericStorage(Storage):
                     for i in range(sha3_input.num_args())
                 ]
                 return cls.simple_hash(concat(decoded_sha3_input_args))
+            elif is_bv_value(sha3_input) and sha3_input.size() > 256:
+                # hash(key, base) with a concrete short key: the base may itself be a hash, decode it as well
+                size = sha3_input.size()
+                hi = simplify(Extract(size - 1, 256, sha3_input))
+                lo = cls.decode(ex, simplify(Extract(255, 0, sha3_input)))
+                return cls.simple_hash(Concat(hi, lo))
             else:
                 return cls.simple_hash(cls.decode(ex, sha3_input))
         elif loc.decl().name() == "bvadd":
